@@ -25,6 +25,21 @@ BOUNDS = {'quick': 'register chains/rings k<=3, widths<=2, all 512 digraphs of 3
           'thorough': 'chains/rings k<=5, widths<=2, digraphs of 3 sequential blocks, n=4 DAG+1 families, larger library compositions incl. UART transmitter'}
 
 
+class MooreG(Logic):
+    def __init__(self, parent, name, en, o):
+        super().__init__(parent, name)
+        self.en = self.addIn('en', en)
+        self.o = self.addOut('o', o)
+        self.s = 0
+
+    def clock(self):
+        if self.en.get():
+            self.s = (self.s + 1) % 3
+
+    def propagate(self):
+        self.o.put(1 if self.s == 2 else 0)
+
+
 def designs(tier):
     T = tier == 'thorough'
     out = []
@@ -42,6 +57,9 @@ def designs(tier):
     out.append({'d': 'counter_chain', 'w': 2})
     out.append({'d': 'clockdiv', 'n': 2})
     out.append({'d': 'dualmem'})
+    out.append({'d': 'moore'})
+    for k in (2, 3):
+        out.append({'d': 'multidrv', 'k': k})
     if T:
         out.append({'d': 'delayline', 'delay': 4, 'w': 2})
         out.append({'d': 'shiftbidir', 'depth': 4, 'w': 1})
@@ -147,6 +165,28 @@ def build(d, sub=None):
         desync = I('desync')
         ClockGenerationAndRecovery(hw, 'ck', tx, desync, pulse, sample, 2 * d['n'], 1)
         UARTSerializer(hw, 'ser', ready, valid, v, pulse, tx)
+    elif k == 'moore':
+        # a leaf that keeps its state in attributes only: clock() advances it (no prepare), propagate() decodes it
+        en = I('en')
+        o, q, q2 = hw.wire('o'), hw.wire('q'), hw.wire('q2')
+        MooreG(hw, 'moore', en, o)
+        py4hw.Reg(hw, 'r', o, q)
+        py4hw.Reg(hw, 'r2', q, q2, enable=en)
+    elif k == 'multidrv':
+        # register chain whose stages alternate between the system clock driver and further (ungated) drivers
+        n = d['k']
+        last = I('x')
+        for i in range(2 * n):
+            q = hw.wire('q%d' % i)
+            if i % 2 == 0:
+                py4hw.Reg(hw, 'r%d' % i, last, q)
+            else:
+                g = Logic(hw, 'g%d' % i)
+                g.clockDriver = py4hw.ClockDriver('clk%d' % i, base=hw.clockDriver)
+                g.addIn('d', last)
+                g.addOut('q', q)
+                py4hw.Reg(g, 'r', last, q)
+            last = q
     elif k in ('seqg', 'seqg4'):
         n = d['n']
         cc = c04.build(n, sub['edges'], ['s'] * n, list(range(n)), ('flat',))
@@ -158,11 +198,35 @@ def build(d, sub=None):
     c = types.SimpleNamespace(sys=hw, free=free)
     c.sim = hw.getSimulator()
     c.st = core.SysState(hw, free=free)
-    drvs = list(c.sim.clockDrivers.values())
-    assert len(drvs) == 1
-    c.cds = drvs[0]
-    c.base = list(c.cds.clockables)
+    c.drv_items = list(c.sim.clockDrivers.items())
+    c.base = [list(cds.clockables) for _, cds in c.drv_items]
     return c
+
+
+def schedules(c):
+    """all (driver order, per-driver clockable order) schedules; identity first"""
+    sizes = [len(b) for b in c.base]
+    per, full = [], True
+    for k in sizes:
+        p, f = perms(k)
+        per.append(p)
+        full = full and f
+    dorders = list(itertools.permutations(range(len(sizes))))
+    out = []
+    for do in dorders:
+        for combo in itertools.product(*per):
+            out.append((do, combo))
+    if len(out) > 720:
+        out = out[:1] + out[1::max(1, len(out) // 720)]
+        full = False
+    return out, full
+
+
+def apply_schedule(c, sch):
+    do, combo = sch
+    for (drv, cds), base, p in zip(c.drv_items, c.base, combo):
+        cds.clockables = [base[i] for i in p]
+    c.sim.clockDrivers = {c.drv_items[i][0]: c.drv_items[i][1] for i in do}
 
 
 def perms(k):
@@ -203,10 +267,10 @@ def explore_design(d, sub, res):
     def mk():
         return build(d, sub)
     c0 = mk()
-    k = len(c0.base)
+    k = sum(len(b) for b in c0.base)
     if k < 2 and not sub:
         raise core.HarnessError('design %r has fewer than 2 sequential blocks' % (d,))
-    P, full = perms(k)
+    P, full = schedules(c0)
     if not full:
         res['capped'] = True
     alpha = input_alphabet(d, c0)
@@ -236,23 +300,23 @@ def explore_design(d, sub, res):
         # (1) every visit order
         for p in P[1:]:
             st.restore(pre)
-            c.cds.clockables = [c.base[i] for i in p]
+            apply_schedule(c, p)
             poke(c, x)
             c.sim.clk(1)
             res['evaluations'] += 1
             if Wire.prepared:
-                c.problem = {'sigkey': 'prepared_not_empty', 'order': list(p)}
+                c.problem = {'sigkey': 'prepared_not_empty', 'schedule': repr(p)}
                 Wire.prepared = []
                 break
             got = st.snapshot()
             if got != post:
                 diff = [(w.getFullPath(), a, b) for w, a, b in zip(st.wires, post[0], got[0]) if a != b]
                 adiff = [(l.name, kk, a, b) for (l, kk), a, b in zip(st.slots, post[1], got[1]) if a != b]
-                c.problem = {'sigkey': 'order_dependent', 'order': [c.base[i].name for i in p],
-                             'identity_order': [o.name for o in c.base], 'wire_diff(identity,permuted)': diff[:6], 'attr_diff': adiff[:6],
-                             'inputs': list(x)}
+                c.problem = {'sigkey': 'order_dependent', 'driver_order': list(p[0]),
+                             'clockable_order_per_driver': [[b[i].getFullPath() for i in pp] for b, pp in zip(c.base, p[1])],
+                             'wire_diff(identity,permuted)': diff[:6], 'attr_diff': adiff[:6], 'inputs': list(x)}
                 break
-        c.cds.clockables = list(c.base)
+        apply_schedule(c, P[0])
         # (3) clk(n) == any splitting
         if c.problem is None:
             for n in (2, 3, 4):
@@ -376,17 +440,16 @@ def replay(v):
     dd = {'d': d['d'], 'n': d.get('n')} if sub else d
     obs = {}
     tr = [tuple(x) for x in v['trace']]
-    k = len(build(dd, sub).base)
-    P, _ = perms(k)
+    P, _ = schedules(build(dd, sub))
     snaps = {}
     for p in P:
         c = build(dd, sub)
-        c.cds.clockables = [c.base[i] for i in p]
+        apply_schedule(c, p)
         for x in tr:
             for w, val in zip(c.free, x):
                 w.put(val)
             c.sim.clk(1)
-        snaps[p] = (c.st.snapshot(), list(Wire.prepared))
+        snaps[repr(p)] = (c.st.snapshot(), list(Wire.prepared))
         Wire.prepared = []
     distinct = {repr(s) for s in snaps.values()}
     out = {'design': d, 'orders_tried': len(P), 'distinct_final_states_over_orders': len(distinct)}
